@@ -390,7 +390,12 @@ def run_messaging(messages, fail_after, consume_every):
                     box['failed'] = True
                     return
                 async for fr in gen:
-                    box['out'].append(('invalid',) if isinstance(fr, InvalidFrame) else ('frame', FR.describe(fr)))
+                    if isinstance(fr, InvalidFrame):
+                        box['out'].append(('invalid',))
+                    elif not hasattr(fr, 'stream_id'):
+                        box['out'].append(('raised', 'the transport handed out %s as if it were a frame' % type(fr).__name__))
+                    else:
+                        box['out'].append(('frame', FR.describe(fr)))
         n = 0
         for i, m in enumerate(messages):
             if fail_after is not None and i == fail_after:
@@ -591,3 +596,8 @@ def endpoint_reads_oracle(rng, n_random):
 def endpoint_reads_battery():
     import random
     return endpoint_reads_oracle(random.Random(4), 20)
+
+
+def messaging_battery():
+    from harness import common
+    return messaging_oracle(common.Ctx('C04', 'quick', 0))[0]
